@@ -88,7 +88,7 @@ func main() {
 	mon.CleanWork()
 
 	evals := r.Get("bytes_cases") + r.Get("value_roundtrips")
-	nontriv := r.Get("accepted") + r.Get("rejected_grammatical") + int64(r.DistinctCount("value"))
+	nontriv := r.Get("exh_nontrivial_pairs") + int64(r.DistinctCount("nontrivial_generated_pairs")) + int64(r.DistinctCount("value"))
 	exh := "all byte strings of length <= 3 against every target type"
 	if r.Thorough() {
 		exh += ", plus all length-4 strings whose first byte is >= 0x80 against the Exh4 subset of types"
@@ -101,8 +101,8 @@ func main() {
 			"Byte strings: exhaustive enumeration of " + exh + " (each pair visited once; a type whose decoder killed the process is quarantined for the rest of that shard, see observed.pairs_skipped_quarantined_type); " +
 			"one mutation of each of " + strconv.Itoa(len(mutKinds)) + " kinds of the reference encoding of seeded boundary-biased values; " +
 			"structure-aware headers claiming sizes up to 2^64-1 (bare and wrapped in lists), deep nesting, many tiny elements. " +
-			"Non-trivial = pairs the decoder accepted (oracles 2,3,5 apply) + pairs it rejected although the string is one canonical item (observed.accepted / observed.rejected_grammatical; exhaustive pairs are distinct by construction) " +
-			"+ distinct (type, encoding) of round-tripped values (measured set).",
+			"Non-trivial = pairs the decoder accepted (oracles 2,3,5 apply) + pairs it rejected although the string is one canonical item (observed.accepted / observed.rejected_grammatical over all workloads); distinct_nontrivial = observed.exh_nontrivial_pairs (exhaustive pairs are distinct by construction) " +
+			"+ the measured sets nontrivial_generated_pairs (type, string) and value (type, encoding of a round-tripped value).",
 		Assumptions: []string{
 			"harness/ref/rlpref implements the yellow-paper RLP grammar (it shares no code with storage/rlp)",
 			"nil pointers to structs/arrays without the rlp:\"nil\" tag are outside the round-trip clause (their documented encoding, the empty list/string, does not decode back)",
@@ -352,7 +352,7 @@ func child(r *mon.Run, args []string) {
 		flushEvery = 64
 		childExh(r, shard)
 	case "gen":
-		flushEvery = 16
+		flushEvery = 64
 		childGen(r, shard)
 	}
 	flushCounts(r)
